@@ -35,6 +35,7 @@ struct KillGenOpts {
   bool bigNumbers = false; // sizes up to 2^62, Swap/MemTotal above 2^32
   bool fractionalArgs = false;
   double systemdP = 0.0;
+  bool midTickEdits = false; // hook plans: cgroups re-created inside a tick
 };
 
 inline int64_t pickSize(Rng& rng, bool big) {
@@ -294,6 +295,18 @@ inline Json::Value genKillPlan(Rng& rng, const KillGenOpts& o) {
     scripts["pk" + R_ + "_det"] = rng.pick<std::string>({"C", "C", "C", "CCS", "CS"});
     dg.append(det);
     rs["detectors"].append(dg);
+    if (rng.chance(0.35)) {
+      // a second detector group: which of the two fired first names the kill
+      Json::Value dg2(Json::arrayValue);
+      dg2.append("dgB" + R_);
+      Json::Value det2(Json::objectValue);
+      det2["name"] = "sim_detector";
+      det2["args"]["id"] = "pk" + R_ + "_detB";
+      scripts["pk" + R_ + "_detB"] =
+          rng.pick<std::string>({"C", "S", "SC", "CS", "SSC", "CCS"});
+      dg2.append(det2);
+      rs["detectors"].append(dg2);
+    }
     rs["actions"].append(genKillAction(rng, o, wg.paths, "w" + R_));
     Json::Value post(Json::objectValue);
     post["name"] = "sim_action";
